@@ -427,7 +427,7 @@ def fuzz_job(interp, seed, runs):
         e = dict(os.environ, PYTHONPATH=env.REPO, FUZZ_OUT=out, FUZZ_STATS=stats, PYTHONHASHSEED='0', PYTHONDONTWRITEBYTECODE='1')
         p = subprocess.run([interp, os.path.join(here, 'tools', 'fuzz_text.py'), corpus, '-runs=%d' % runs, '-seed=%d' % (1 + seed % (2 ** 31 - 2)), '-max_len=200',
                             '-dict=' + os.path.join(d, 'dict'), '-print_final_stats=0', '-verbosity=0'],
-                           cwd=d, env=e, stdout=subprocess.PIPE, stderr=subprocess.PIPE, timeout=7200)
+                           cwd=d, env=e, stdout=subprocess.PIPE, stderr=subprocess.PIPE, timeout=7200, preexec_fn=env.unlimit_memory)
         if not os.path.exists(stats):
             raise env.HarnessError('fuzz child produced no statistics: rc=%d %s' % (p.returncode, p.stderr.decode('utf-8', 'replace')[-400:]))
         with open(stats) as f:
